@@ -100,6 +100,9 @@ pub fn parse(s: &str) -> Parsed {
     } else {
         fp
     };
+    // trailing decimal zeros do not change the number; drop them so that a long spelling of
+    // a short number stays inside the 96-bit zone
+    let fp = fp.trim_end_matches('0');
     let digits: String = format!("{}{}", ip, fp);
     let trimmed = digits.trim_start_matches('0');
     if trimmed.len() > 29 {
@@ -351,8 +354,9 @@ mod tests {
     fn parse_forms() {
         for (s, m, sc) in [
             ("2", 2u128, 0u32),
-            ("2.0", 20, 1),
-            ("02.000", 2000, 3),
+            ("2.0", 2, 0),
+            ("02.000", 2, 0),
+            ("2.50000000000000000000000000000000", 25, 1),
             (".5", 5, 1),
             ("1.", 1, 0),
             ("+3.25", 325, 2),
